@@ -325,3 +325,197 @@ func c06atomicTTL(c *Ctx) {
 	}
 	c.R.Min(rule, 2, "SetexCtx, SetnxExCtx")
 }
+
+// reachingStoresOf: the stores to a local cell that can still be its content at use (a store followed by another store
+// that dominates the use is dead there).
+func reachingStoresOf(al *ssa.Alloc, use ssa.Instruction) []*ssa.Store {
+	before := func(a, b ssa.Instruction) bool {
+		if a.Block() != b.Block() {
+			return a.Block().Dominates(b.Block())
+		}
+		for _, i := range a.Block().Instrs {
+			if i == a {
+				return true
+			}
+			if i == b {
+				return false
+			}
+		}
+		return false
+	}
+	var all []*ssa.Store
+	for _, r := range *al.Referrers() {
+		if st, ok := r.(*ssa.Store); ok && st.Addr == al {
+			all = append(all, st)
+		}
+	}
+	var out []*ssa.Store
+	for _, s1 := range all {
+		dead := false
+		for _, s2 := range all {
+			if s2 != s1 && before(s1, s2) && (use == nil || before(s2, use)) && use != nil {
+				dead = true
+			}
+		}
+		if !dead {
+			out = append(out, s1)
+		}
+	}
+	return out
+}
+
+// c06retryOwnsKeys (R13, round 6): which keys a deferred invalidation deletes is fixed when the write returns. A retry
+// task handed to AddCleanTask runs a second or more later; every slice it captures (and the key list given along with
+// it) is owned by the task: built by the function that schedules it (a literal / variadic pack, append to nil, make +
+// copy), or — followed through the package's static callers — by one of them. A slice that arrives through a
+// parameter of an exported entry point is the caller's: `buf = append(buf[:0], "user:2")` after `Del(buf...)` returned
+// makes the retry delete user:2 and leave user:1 stale until its TTL.
+func c06retryOwnsKeys(c *Ctx) {
+	rule := "C06.R13"
+	add := c.P.Func(cachePkg, "AddCleanTask")
+	if add == nil {
+		c.R.Undecided(rule, cachePkg+".AddCleanTask", "anchor resolves", "function not found")
+		return
+	}
+	// static callers inside the package
+	callers := map[*ssa.Function][]*ssa.Call{}
+	for _, f := range c.P.AllFuncs(cachePkg) {
+		for _, b := range f.Blocks {
+			for _, ins := range b.Instrs {
+				if call, ok := ins.(*ssa.Call); ok {
+					if sc := call.Call.StaticCallee(); sc != nil {
+						callers[sc] = append(callers[sc], call)
+					}
+				}
+			}
+		}
+	}
+	var owner func(v ssa.Value, f *ssa.Function, depth int, seen map[ssa.Value]bool) string
+	owner = func(v ssa.Value, f *ssa.Function, depth int, seen map[ssa.Value]bool) string {
+		if v == nil || seen[v] {
+			return ""
+		}
+		seen[v] = true
+		switch x := v.(type) {
+		case *ssa.Const, *ssa.MakeSlice:
+			return ""
+		case *ssa.Alloc:
+			return ""
+		case *ssa.Slice:
+			if al, ok := x.X.(*ssa.Alloc); ok && al.Heap {
+				return "" // a literal / the pack of a variadic call
+			}
+			return owner(x.X, f, depth, seen)
+		case *ssa.Phi:
+			for _, e := range x.Edges {
+				if r := owner(e, f, depth, seen); r != "" {
+					return r
+				}
+			}
+			return ""
+		case *ssa.Call:
+			if b, ok := x.Call.Value.(*ssa.Builtin); ok && b.Name() == "append" {
+				// append(fresh, …) stays fresh; the appended elements are strings (copied)
+				return owner(x.Call.Args[0], f, depth, seen)
+			}
+			return fmt.Sprintf("the result of %s", calleeName(x.Common()))
+		case *ssa.UnOp:
+			if al, ok := x.X.(*ssa.Alloc); ok {
+				for _, st := range reachingStoresOf(al, x) {
+					if r := owner(st.Val, f, depth, seen); r != "" {
+						return r
+					}
+				}
+				return ""
+			}
+			if fv, ok := x.X.(*ssa.FreeVar); ok {
+				return owner(fv, f, depth, seen)
+			}
+			return "a value loaded from " + x.X.Name()
+		case *ssa.FreeVar:
+			// the enclosing function's binding
+			par := f.Parent()
+			if par == nil {
+				return "a free variable"
+			}
+			for _, b := range par.Blocks {
+				for _, ins := range b.Instrs {
+					if mc, ok := ins.(*ssa.MakeClosure); ok && mc.Fn == f {
+						for i, fvv := range f.FreeVars {
+							if fvv == x {
+								return owner(mc.Bindings[i], par, depth, seen)
+							}
+						}
+					}
+				}
+			}
+			return "a free variable"
+		case *ssa.Parameter:
+			idx := -1
+			for i, p := range f.Params {
+				if p == x {
+					idx = i
+				}
+			}
+			exported := f.Object() != nil && f.Object().Exported()
+			if exported || depth >= 4 || len(callers[f]) == 0 {
+				return fmt.Sprintf("parameter %s of %s", x.Name(), funcDisplay(f))
+			}
+			for _, call := range callers[f] {
+				if idx >= len(call.Call.Args) {
+					continue
+				}
+				if r := owner(call.Call.Args[idx], call.Parent(), depth+1, map[ssa.Value]bool{}); r != "" {
+					return r
+				}
+			}
+			return ""
+		}
+		return fmt.Sprintf("%s (%T)", v.Name(), v)
+	}
+	isStrSlice := func(t types.Type) bool {
+		if p, ok := t.Underlying().(*types.Pointer); ok {
+			t = p.Elem()
+		}
+		_, ok := t.Underlying().(*types.Slice)
+		return ok
+	}
+	sites := 0
+	for _, call := range callers[add] {
+		f := call.Parent()
+		sites++
+		var bad []string
+		// the key list
+		if r := owner(call.Call.Args[len(call.Call.Args)-1], f, 0, map[ssa.Value]bool{}); r != "" {
+			bad = append(bad, "the key list of the task is "+r)
+		}
+		// slices captured by the task
+		if mc, ok := call.Call.Args[0].(*ssa.MakeClosure); ok {
+			for i, b := range mc.Bindings {
+				if !isStrSlice(b.Type()) {
+					continue
+				}
+				v := b
+				if al, ok := b.(*ssa.Alloc); ok {
+					// captured by reference: what was stored
+					for _, st := range reachingStoresOf(al, mc) {
+						if r := owner(st.Val, f, 0, map[ssa.Value]bool{}); r != "" {
+							bad = append(bad, fmt.Sprintf("the task captures %s, which is %s", mc.Fn.(*ssa.Function).FreeVars[i].Name(), r))
+						}
+					}
+					continue
+				}
+				if r := owner(v, f, 0, map[ssa.Value]bool{}); r != "" {
+					bad = append(bad, fmt.Sprintf("the task captures %s, which is %s", mc.Fn.(*ssa.Function).FreeVars[i].Name(), r))
+				}
+			}
+		}
+		sort.Strings(bad)
+		detail := strings.Join(bad, "; ")
+		if len(bad) > 0 {
+			detail += ": the caller's slice is read a second or more after the call returned — a reused key buffer makes the retry delete other keys and leave the written ones stale"
+		}
+		c.R.Check(len(bad) == 0, rule, funcDisplay(f)+"#retry-keys", "every slice a deferred invalidation task keeps is owned by the task (built by the scheduling function or its in-package callers), never a slice that came in through an exported entry point", c.P.Pos(call.Pos()), detail, bad, 1)
+	}
+	c.R.Min(rule, 1, "cacheNode.asyncRetryDelCache")
+}
